@@ -181,3 +181,13 @@ Fixpoint frag_stmt (s : stmt) : bool :=
   end
 with frag_stmts (ss : stmts) : bool :=
   match ss with SNil => true | SCons s r => frag_stmt s && frag_stmts r end.
+
+(** No loop carries an [else] suite (what the repaired builder accepts). *)
+Fixpoint no_loop_else (s : stmt) : bool :=
+  match s with
+  | SIf _ b o => no_loop_else_list b && no_loop_else_list o
+  | SWhile _ b o => no_loop_else_list b && match o with SNil => true | SCons _ _ => false end
+  | _ => true
+  end
+with no_loop_else_list (ss : stmts) : bool :=
+  match ss with SNil => true | SCons s r => no_loop_else s && no_loop_else_list r end.
